@@ -57,12 +57,12 @@ PROPS["C03"] = dict(
     rule=("forced interleavings through hook gates (a goroutine is held at a named point between two critical sections while the other "
           "party runs to completion): A stop(StopConsume|Stream.Close|Unregist) x delivery goroutine (5 orderings x RTP|FLV), B stream "
           "close x attach (5 orderings incl. attach-after-close), C Remove x RemoveAndCloseAll (2), D converter Close x converter loop "
-          "(3 orderings x rtp demuxer|flv muxer|ts muxer), each repeated; E concurrent random histories (2-4 workers, 1-3 streams, "
+          "(3 orderings x rtp demuxer|flv muxer|ts muxer), F source of a retired stream ends, each repeated; service part: clients on rtsp-tcp/ws-rtsp/wsp/http-flv/ws-flv/rtsp-udp x stream end by publisher disconnect/replacement/REST delete/UnregistAll; E concurrent random histories (2-4 workers, 1-3 streams, "
           "attach/stop/publish/close/replace) with seeded delays at 14 hook points. A case is distinct by its scenario name / history shape"),
     level_text=("Schedule exploration of the real media package: every named two-party ordering is forced deterministically with gates and "
                 "observed, plus perturbed concurrent histories; oracle = close-exactly-once ledger, consumer count, goroutine enter/exit "
                 "ledger, goroutine-profile state (parked in sync.Cond.Wait with no possible waker = violation; else inconclusive)"),
-    level_note="library level (media, converters); transports and per-protocol connection counters are exercised at service level in C12/C20/C01-transports",
+    level_note="library level (media, converters) plus a service-level part: real clients on six transports, four ways a stream ends, socket close + per-protocol counters + registry back to baseline",
     technique="runtime monitoring with hook-gated schedule enumeration + seeded perturbation; ledger/goroutine-state oracle; race detector informational",
     assumptions=["hook points lie between critical sections, so every forced ordering is one the Go scheduler can produce",
                  "'promptly' is decided on state (parked forever) not on wall-clock; watchdog expiry alone is inconclusive"],
